@@ -1748,6 +1748,10 @@ class Segment(Element):
 
     def _get_children(self, trailing=False):
         children = self.children.get_ordered_children()
+        if len(children) < self._last_allowed_child_index:
+            # the structure skips some field numbers (e.g. withdrawn fields): keep every field at its own index
+            by_index = dict((int(k[4:]), c) for k, c in zip(self.ordered_children, children))
+            children = [by_index.get(i) for i in xrange(1, self._last_allowed_child_index + 1)]
         if self.allow_infinite_children:
             for i in xrange(self._last_allowed_child_index + 1, self._last_child_index + 1):
                 children.append(self.children.indexes.get('{}_{}'.format(self.name, i), None))
